@@ -127,7 +127,7 @@ class FileE2E(Suite):
                             for i, op in enumerate(case["ops"]):
                                 p = linux.Path(m, f"{d}/f{i}")
                                 local = f"{d}/f{i}"
-                                signal.alarm(40)
+                                signal.alarm(150)
                                 try:
                                     if op[0] == "bytes":
                                         data = bytes.fromhex(op[1])
